@@ -93,9 +93,7 @@ def generate(prop, seed, tier):
                 d["method"] = S.pick(["wlsq", "lsq"]) if cond[i] is not None or S.chance(0.9) else "mle"
                 d["weights"] = S.pick(["linear", "quadratic", "cubic"])
             else:
-                d["method"] = "mle"
-            if tname == "ExpWeibull" and d["method"] == "mle" and False:
-                pass
+                d["method"] = S.pick(["mle", None, None])  # None: the model's default (MLE) is filled in
         elif S.chance(0.5):
             d["method"] = S.pick(["mle", "MLE"])
         if cond[i] is not None:
@@ -123,7 +121,7 @@ def generate(prop, seed, tier):
             "order": S.pick(["asdrawn", "sorted0", "shuffled"]),
             "scale": core.r6(S.pick([1.0, 1.0, 1.3, 0.8])),
             "twin_perm": S.sub("perm", k) if k == twin_step else None,
-            "container": S.wpick([("ndarray", 4), ("list", 1), ("dataframe", 2), ("fortran", 1)]),
+            "container": S.wpick([("ndarray", 4), ("list", 1), ("dataframe", 2), ("fortran", 1), ("int64", 0.8)]),
             "clone_before": S.chance(0.12),
             "fault": None,
         }
@@ -147,7 +145,12 @@ def generate(prop, seed, tier):
         for p, dd in d["deps"].items():
             if dd["shape"] not in ("poly1", "scaled1") and k_target < 6:
                 d["deps"][p] = {"shape": "poly1", "slope": dd["slope"], "bounds": None}
-    return {"engine": NAME, "property": prop, "seed": seed, "cond": cond, "dims": dims, "slicers": slicers, "steps": steps, "reuse_fit_desc": S.chance(0.4)}
+    scen_out = {"engine": NAME, "property": prop, "seed": seed, "cond": cond, "dims": dims, "slicers": slicers, "steps": steps, "reuse_fit_desc": S.chance(0.4)}
+    ew_default = [i for i, d in enumerate(dims) if TEMPLATES[d["template"]][0] == "ExpWeibull" and d["method"] is None and (d["cond_on"] is None or d["template"] == "ExpWeibullD")]
+    if scen_out["reuse_fit_desc"] and ew_default and n_steps >= 2 and S.chance(0.7):
+        # after the first fit the caller changes "his" entry - the dict the model wrote into the list - in place
+        scen_out["edit_filled_entry"] = {"after_step": 0, "dim": S.pick(ew_default), "method": "wlsq", "weights": S.pick(["linear", "quadratic"])}
+    return scen_out
 
 
 # --------------------------------------------------------------------------
@@ -202,12 +205,17 @@ def make_data(scen, st):
         D = D[np.argsort(D[:, 0], kind="stable")]
     elif st["order"] == "shuffled":
         D = D[np.random.default_rng(st["dseed"] + 1).permutation(n)]
+    if st.get("container") == "int64":
+        # measurements stored as integers (e.g. in cm or dm): the values are integral floats for the oracles
+        D = np.maximum(np.round(D), 1.0) if all(TEMPLATES[d["template"]][0] != "Normal" for d in scen["dims"]) else np.round(D)
     f = st.get("fault")
     if f and f["kind"] == "F2-negative":
         D = D.copy()
         D[:, 0] = -np.abs(D[:, 0]) - 0.5
     if f and f["kind"] == "F2-too-few":
         D = D[:25]
+    if st.get("container") == "int64":
+        D = np.round(D)  # after the fault edits as well: what is handed over is integral
     return D
 
 
@@ -499,7 +507,7 @@ def check_twins(run, scen, A, B, step):
         if len(da.data_intervals) != len(db.data_intervals):
             run.violate("O4-row-order-invariance", f"intervals/{sk['kind']}", {"dim": i, "n_intervals_a": len(da.data_intervals), "n_intervals_b": len(db.data_intervals), "step": step})
             return
-        ties = scen["steps"][step]["round"] is not None and sk["kind"] == "points"
+        ties = (scen["steps"][step]["round"] is not None or scen["steps"][step].get("container") == "int64") and sk["kind"] == "points"
         for k in range(len(da.data_intervals)):
             ca = Counter(np.asarray(da.data_intervals[k], dtype=float).tolist())
             cb = Counter(np.asarray(db.data_intervals[k], dtype=float).tolist())
@@ -559,6 +567,8 @@ def _as_container(D, kind):
         return pd.DataFrame(D, columns=[f"v{i}" for i in range(D.shape[1])])
     if kind == "fortran":
         return np.asfortranarray(D)
+    if kind == "int64":
+        return D.astype(np.int64)
     return D.copy()
 
 
@@ -604,12 +614,16 @@ def execute(prop, scen):
         # defaults in place, so the second call sees what the first one left)
         shared_fd_a = copy.deepcopy(fit_desc_of(scen))
         shared_fd_b = copy.deepcopy(fit_desc_of(scen))
+        scenA = scen  # A's view of the declared options (changes when the caller edits his list)
+        edit = scen.get("edit_filled_entry")
+        edited = False
         for si, st in enumerate(scen["steps"]):
             D = make_data(scen, st)
             Db = D
             if st["twin_perm"] is not None:
                 Db = D[np.random.default_rng(st["twin_perm"]).permutation(len(D))]
             pre = _snapshot_params(A, scen)
+            preB = _snapshot_params(B, scen)
             f = st["fault"]
             fail_at = [f["at"]] if f and f["kind"] == "F1" else None
             excA = excB = None
@@ -619,7 +633,7 @@ def execute(prop, scen):
                     if st.get("clone_before") and si > 0:
                         A = copy.deepcopy(A)  # the user continues with a deep copy of the fitted model
                         run.count("probe:continued-on-deep-copy")
-                    A.fit(_as_container(D, st.get("container", "ndarray")), shared_fd_a if scen.get("reuse_fit_desc") else copy.deepcopy(fit_desc_of(scen)))
+                    A.fit(_as_container(D, st.get("container", "ndarray")), shared_fd_a if scen.get("reuse_fit_desc") else copy.deepcopy(fit_desc_of(scenA)))
                 except Exception as e:  # noqa: BLE001
                     excA = e
             firedA = shim.fired
@@ -643,7 +657,7 @@ def execute(prop, scen):
             if excA is not None or excB is not None:
                 exc = excA or excB
                 all_linear = all(dd["shape"] in ("poly1", "scaled1") for d in scen["dims"] for dd in d["deps"].values())
-                ties_ppi = st["round"] is not None and any(sp["kind"] == "points" for sp in scen["slicers"])
+                ties_ppi = (st["round"] is not None or st.get("container") == "int64") and any(sp["kind"] == "points" for sp in scen["slicers"])
                 if (excA is None) != (excB is None) and st["twin_perm"] is not None and all_linear and not ties_ppi:
                     run.violate("O4-row-order-invariance", "fit-raises-for-one-row-order", {"step": si, "excA": repr(excA)[:200], "excB": repr(excB)[:200]})
                     return run
@@ -660,14 +674,29 @@ def execute(prop, scen):
             if not _all_finite(A, scen) or not _all_finite(B, scen):
                 run.inconclusive = "estimator returned non-finite parameters without raising"
                 return run
-            check_model(run, scen, A, D, pre, si, tag)
+            check_model(run, scenA, A, D, pre, si, tag)
             if run.violations:
                 return run
             if si > 0:
-                check_refit_equals_fresh_fit(run, scen, A, D, hint, si, tag, st.get("container", "ndarray"))
+                check_refit_equals_fresh_fit(run, scenA, A, D, hint, si, tag, st.get("container", "ndarray"))
                 if run.violations:
                     return run
-            if st["twin_perm"] is not None:
+            if edited:
+                # the twin was given its own list with the same None entries: it must still be fitted
+                # with the documented default - whatever another caller did to the dict *he* was handed
+                check_model(run, scen, B, Db, preB, si, tag + "/other-model-after-callers-edit")
+                run.count("probe:other-model-fitted-after-callers-edit")
+                if run.violations:
+                    return run
+            if edit and not edited and si == edit["after_step"] and isinstance(shared_fd_a[edit["dim"]], dict):
+                shared_fd_a[edit["dim"]]["method"] = edit["method"]
+                shared_fd_a[edit["dim"]]["weights"] = edit["weights"]
+                scenA = copy.deepcopy(scen)
+                scenA["dims"][edit["dim"]]["method"] = edit["method"]
+                scenA["dims"][edit["dim"]]["weights"] = edit["weights"]
+                edited = True
+                run.count("probe:caller-edited-filled-fit-description")
+            if st["twin_perm"] is not None and not edited:
                 run.count("probe:twin-permuted-step")
                 check_twins(run, scen, A, B, si)
                 if run.violations:
@@ -737,5 +766,5 @@ def describe(prop):
             "rows within 1e-9 x scale of an interval edge may fall on either side (edge conventions are C10's subject)",
             "with rounded data (ties) and PointsPerIntervalSlicer, rows tying with a chunk edge may swap sides between row orders",
         ],
-        "probes": ["refit", "twin-permuted-step", "clean-fit-after-failed-fit", "rejected-data-accepted", "chained-dependence-checked", "continued-on-deep-copy"],
+        "probes": ["refit", "twin-permuted-step", "clean-fit-after-failed-fit", "rejected-data-accepted", "chained-dependence-checked", "continued-on-deep-copy", "caller-edited-filled-fit-description", "other-model-fitted-after-callers-edit"],
     }
